@@ -156,7 +156,12 @@ def draw_spec(rng, n_vms=None, max_depth=4, allow_multi_producer=True, allow_rem
                                                                        {"name": "pb", "state": "mpst.b", "removable": False}],
                  "dependant": {"name": "tdep", "sets": rng.choice(["", "depst"])},
                  "grand": rng.random() < 0.5}
+        if group["grand"]:
+            # only a test that saves a state can be somebody's setup
+            group["dependant"]["sets"] = "depst"
         groups.append(group)
+        # cloning per producer is only exercised with single-image vms (as in the shipped suite)
+        vms[vm]["images"] = ["image1"]
     return {"vms": vms, "setups": setups, "leaves": leaves, "groups": groups}
 
 
@@ -266,7 +271,17 @@ def write_suite(spec, directory, shipped):
         source = os.path.join(shipped, "controls", name)
         if os.path.exists(source):
             shutil.copy(source, os.path.join(directory, "controls", name))
-    shutil.copy(os.path.join(shipped, "configs", "nets.cfg"), os.path.join(configs, "nets.cfg"))
+    nets = open(os.path.join(shipped, "configs", "nets.cfg")).read()
+    # worker restrictions of the shipped nets refer to shipped guest variants: map them to the generated ones
+    first = {vm: description["variants"][0] for vm, description in spec["vms"].items()}
+    last = {vm: description["variants"][-1] for vm, description in spec["vms"].items()}
+    nets = nets.replace("only_vm1 = CentOS, Fedora", f"only_vm1 = {first.get('vm1', 'A1')}")
+    nets = nets.replace("only_vm1 = Fedora", f"only_vm1 = {last.get('vm1', 'A1')}")
+    nets = nets.replace("only_vm1 = CentOS", f"only_vm1 = {first.get('vm1', 'A1')}")
+    nets = nets.replace("no_vm2 = WinXP, Win8", "no_vm2 = B9")
+    nets = nets.replace("no_vm2 = Win7", f"no_vm2 = {last.get('vm2', 'B1')}" if len(spec["vms"].get("vm2", {}).get("variants", [])) > 1 else "no_vm2 = B9")
+    nets = nets.replace("no_vm2 = Win10", "no_vm2 = B9")
+    open(os.path.join(configs, "nets.cfg"), "w").write(nets)
     if spec.get("full_base_configs"):
         base = open(os.path.join(shipped, "configs", "guest-base.cfg")).read()
         base = base.replace("vms = vm1 vm2 vm3", "vms = " + " ".join(spec["vms"]))
